@@ -86,7 +86,7 @@ func judge(c work.ConcCase, recs []work.Rec) (msg, infra string) {
 			if r.Torn && c.Kind != "file-mixed" {
 				return fmt.Sprintf("torn read: %s returned a block that is not one whole written block: word 0 carries tag %#x but word %d carries tag %#x", describe(r), r.Tag, r.TornAt, r.TornTag), ""
 			}
-			if !r.Refused && r.Tag != 0 && !written[r.Addr][r.Tag] {
+			if !r.Refused && r.Tag != 0 && !written[r.Addr][r.Tag] && !(r.Torn && c.Kind == "file-mixed") {
 				return fmt.Sprintf("%s: that tag was never written to address %d", describe(r), r.Addr), ""
 			}
 		}
